@@ -13,7 +13,10 @@ package sched
 import (
 	"fmt"
 	"hash/fnv"
+	"os"
 	"runtime"
+	"strconv"
+	"time"
 	"sort"
 	"strings"
 	"sync"
@@ -141,8 +144,43 @@ func goid() uint64 {
 	return id
 }
 
+// FreeRun (env VERIF_FREERUN) turns the scheduler off: Run/Go use plain goroutines, shim
+// operations pass through to the real primitives with seeded yield injection. Used for the
+// separate free-running -race pass of the same scenario bodies.
+var FreeRun = os.Getenv("VERIF_FREERUN") != ""
+
+var (
+	freeWG    sync.WaitGroup
+	jitterSt  atomic.Uint64
+	FreeOps   atomic.Int64
+	freeInit  sync.Once
+)
+
+func jitter() {
+	freeInit.Do(func() {
+		seed, _ := strconv.ParseUint(os.Getenv("VERIF_SEED"), 10, 64)
+		jitterSt.Store(seed*2654435761 + 88172645463325252)
+	})
+	FreeOps.Add(1)
+	x := jitterSt.Load()
+	x ^= x << 13
+	x ^= x >> 7
+	x ^= x << 17
+	jitterSt.Store(x)
+	switch {
+	case x%97 == 0:
+		time.Sleep(time.Duration(x%50) * time.Microsecond)
+	case x%3 == 0:
+		runtime.Gosched()
+	}
+}
+
 // Current returns the managed thread of the calling goroutine, or nil.
 func Current() *Thread {
+	if FreeRun {
+		jitter()
+		return nil
+	}
 	if active.Load() == 0 {
 		return nil
 	}
@@ -232,6 +270,18 @@ func Go(fn func()) { GoNamed("", false, fn) }
 
 // GoNamed is Go with an explicit name suffix and daemon flag.
 func GoNamed(name string, daemon bool, fn func()) {
+	if FreeRun {
+		if !daemon {
+			freeWG.Add(1)
+		}
+		go func() {
+			if !daemon {
+				defer freeWG.Done()
+			}
+			fn()
+		}()
+		return
+	}
 	t := Current()
 	if t == nil {
 		go fn()
@@ -290,6 +340,26 @@ func (s *Sched) spawn(parent *Thread, name string, daemon bool, fn func()) *Thre
 
 // Run executes main as thread "main" under the controlled scheduler.
 func Run(ch Chooser, opt Options, main func()) *Outcome {
+	if FreeRun {
+		out := &Outcome{}
+		func() {
+			defer func() {
+				if e := recover(); e != nil {
+					out.Panics = append(out.Panics, fmt.Sprint(e))
+				}
+			}()
+			main()
+		}()
+		done := make(chan struct{})
+		go func() { freeWG.Wait(); close(done) }()
+		select {
+		case <-done:
+		case <-time.After(60 * time.Second):
+			out.InfraErrors = append(out.InfraErrors, "free-running pass: threads did not finish within 60s")
+		}
+		out.Threads = 2
+		return out
+	}
 	if opt.MaxSteps == 0 {
 		opt.MaxSteps = 20000
 	}
